@@ -483,6 +483,8 @@ class MQTTProtocol(MQTTBaseProtocol):
         '''
         if self._version == v31:
             request.encoded[0] |=  (dup << 3)   # set the dup flag
+        else:
+            request.encoded[0] &= 0xF7          # reserved in 3.1.1, even if an earlier 3.1 connection of the session set it
         interval = request.interval() + 0.25*len(self.factory.windowSubscribe[self.addr])
         request.alarm = self.callLater(interval, self._subscribeError, request)
         log.debug("==> {packet:7} (id={request.msgId:04x} dup={dup})", packet="SUBSCRIBE", request=request, dup=dup)
@@ -496,6 +498,8 @@ class MQTTProtocol(MQTTBaseProtocol):
         '''
         if self._version == v31:
             request.encoded[0] |=  (dup << 3)   # set the dup flag
+        else:
+            request.encoded[0] &= 0xF7          # reserved in 3.1.1, even if an earlier 3.1 connection of the session set it
         interval = request.interval() + 0.25*len(self.factory.windowUnsubscribe[self.addr])
         request.alarm = self.callLater(interval, self._unsubscribeError, request)
         log.debug("==> {packet:7} (id={request.msgId:04x} dup={dup})", packet="UNSUBSCRIBE", request=request, dup=dup)
@@ -595,6 +599,9 @@ class MQTTProtocol(MQTTBaseProtocol):
         if self._version == v31:
             reply.encoded[0] |=  (dup << 3)   # set the dup flag
             reply.dup = dup
+        else:
+            reply.encoded[0] &= 0xF7            # reserved in 3.1.1, even if an earlier 3.1 connection of the session set it
+            reply.dup = False
         reply.alarm = self.callLater(reply.interval(), self._pubrelError, reply)
         log.debug("==> {packet:7} (id={reply.msgId:04x} dup={dup})", packet="PUBREL", reply=reply, dup=dup)
         self.transport.write(str(reply.encoded) if PY2 else bytes(reply.encoded))
